@@ -199,12 +199,15 @@ def TokClass(t):
 
 
 # a run of ParseGenericCall's predicate-name characters that contains + or -
-# and stands immediately before an opening parenthesis
-_PM_RUN = re.compile(r'[A-Za-z0-9_@.$`{}+\-]*[+\-][A-Za-z0-9_@.$`{}+\-]*\(')
+# (or is the special name `!`) and stands immediately before an opening
+# parenthesis or brace (ParseCall / ParseUltraConciseCombine)
+_PM_RUN = re.compile(r'[A-Za-z0-9_@.$`{}+\-]*[+\-][A-Za-z0-9_@.$`{}+\-]*[({]'
+                     r'|(?<![A-Za-z0-9_@.$`+\-!])!\{')
 
 
 def PlusMinusRuns(text):
-  return sorted(_PM_RUN.findall(text))
+  # the `-` of `:-` is not part of a name run
+  return sorted(_PM_RUN.findall(text.replace(':-', ': ')))
 
 
 _OPERAND_END = ('name', 'num', 'str', 'Name', 'bt', 'op:)', 'op:]', 'op:}',
@@ -227,7 +230,10 @@ def Signature(rec, vidx, who, clause, min_lay=None):
     v = rec['vars'][vidx - 1]
     var_p = rec['raw']['vars'][vidx - 1][who]
     sig['kind'] = v['kind']
-    lay = min_lay or v['lay']
+    lay = v['lay']
+    if min_lay:
+      lay, min_st = min_lay
+      var_p = {'st': min_st}
     cfill = sg.UnCps(v['cfill'])
     kinds = NoiseKinds(lay)
     sig['noise'] = '+'.join(sorted(set(kinds)))
@@ -286,8 +292,11 @@ def Signature(rec, vidx, who, clause, min_lay=None):
       construct = 'unary-minus-number'
     elif PlusMinusRuns(canon_text) != PlusMinusRuns(noisy_text):
       construct = 'plusminus-run-before-paren'
-    elif (single_site and left == 'name' and right == 'op:+=' and
-          sig['change'] == 'rej->ok'):
+    elif (lay['sites'] and not lay['wraps'] and not lay['semi'] and
+          sig['change'] == 'rej->ok' and
+          all(s_['b'] >= 1 and s_['b'] < len(toks) and
+              cls[s_['b'] - 1] == 'name' and cls[s_['b']] == 'op:+='
+              for s_ in lay['sites'])):
       construct = 'assign-combination-needs-space'
     elif (single_wrap and sig['change'] == 'rej->ok' and
           (left.startswith('agg:') or left in ('op:+=', 'op:=')) and
@@ -302,8 +311,33 @@ def Signature(rec, vidx, who, clause, min_lay=None):
                                         else right)[3:]
     elif single_site and left == 'op:..' and sig['change'] == 'ok->rej':
       construct = 'restof-dots-space'
+    elif (lay['sites'] and not lay['wraps'] and not lay['semi'] and
+          all(s_['k'] in ('sp', 'nl', 'hash') for s_ in lay['sites']) and
+          all(_EqTokenRightOf(toks, s_['b']) for s_ in lay['sites'])):
+      construct = 'concise-combine-eq-misfire'
   sig['construct'] = construct
   return sig
+
+
+def _EqTokenRightOf(toks, b):
+  """Boundary b lies inside a proposition that has, to its right and at the
+  same bracket depth, one of the operators = != <= >= (the shapes on which
+  ParseConciseCombine splits)."""
+  # (the left operand may be wrapped in one pair of parentheses, which Strip
+  # removes before ParseConciseCombine looks at the blanks: depth -1)
+  depth = 0
+  for t in toks[b:]:
+    if t in '([{':
+      depth += 1
+    elif t in ')]}':
+      depth -= 1
+      if depth < -1 or t != ')' and depth < 0:
+        return False
+    elif depth <= 0 and t in (',', '|', ':-', ';', '=>'):
+      return False
+    elif depth <= 0 and t in ('=', '!=', '<=', '>='):
+      return True
+  return False
 
 
 def _HasTopLevelEqComparison(toks, rng):
@@ -336,18 +370,29 @@ def Minimize(job):
   (only used to *classify* a failure TLC reported, never for a verdict)."""
   tc, lay, cfill, who = job
 
+  status = {}
+
   def Tree(text):
-    return sg.ParseFacts(text, want_facts=False)[who]['tree']
+    p = sg.ParseFacts(text, want_facts=False)[who]
+    status[text] = p['st']
+    return p['tree']
   canon = Tree(sg.Render(tc))
 
   def Fails(elements):
     return Tree(sg.Render(tc, _LayoutFrom(elements), cfill=cfill)) != canon
+
+  def Done(elements):
+    lay_ = _LayoutFrom(elements)
+    text = sg.Render(tc, lay_, cfill=cfill)
+    if text not in status:
+      Tree(text)
+    return lay_, status[text]
   elements = _Elements(lay)
   if len(elements) <= 1:
-    return lay
+    return Done(elements)
   for e in elements:
     if Fails([e]):
-      return _LayoutFrom([e])
+      return Done([e])
   changed = True
   while changed and len(elements) > 1:
     changed = False
@@ -357,7 +402,7 @@ def Minimize(job):
         elements = cand
         changed = True
         break
-  return _LayoutFrom(elements)
+  return Done(elements)
 
 
 # ---- the check ----------------------------------------------------------------------
@@ -618,6 +663,7 @@ def Run(tier):
 
   cls = findings.Classifier(PROP)
   violations = []
+  known_repro = {}
   machinery = []
   per_noise = collections.Counter()
   per_kind = collections.Counter()
@@ -646,9 +692,14 @@ def Run(tier):
               'layout': v['lay'] if v else None,
               'cfill': sg.UnCps(v['cfill']) if v else None,
               'variant_kind': v['kind'] if v else rec['kind'],
-              'minimal_layout': minimal.get((rid, vidx, who)),
+              'minimal_layout': (minimal.get((rid, vidx, who)) or [None])[0],
               'case': rec['case'], 'base': rec['base']}
-      if cls.Match(sig):
+      known = cls.Match(sig)
+      if known:
+        # one stored reproducer per listed finding (shortest text seen)
+        best = known_repro.get(known['id'])
+        if best is None or len(item['text']) < len(best['text']):
+          known_repro[known['id']] = item
         continue
       violations.append(item)
 
@@ -686,6 +737,8 @@ def Run(tier):
     print('  %s\n    canonical=%r\n    text=%r (%d cases)' % (
         key, it['canonical_text'][:100], it['text'][:100], len(items)))
   known_lines = cls.Report()
+  for fid, it in known_repro.items():
+    common.WriteReplay(PROP, 'known_' + fid, it)
 
   n_texts = sum(r['n'] for r in reports.values())
   # non-trivial: the canonical text is accepted by both parsers and the
